@@ -73,3 +73,24 @@ package fasta
 //@   ensures forall t int :: 0 <= t && t < len(Y) && Y[t].1 != nil ==> t == len(Y)-1
 //@   loop 1
 //@     invariant !openFails(file) && len(Y) == K && forall t int :: 0 <= t && t < K ==> same(Y[t], ZR[t])
+
+// ---- writer ----
+// w.out: bytes accepted so far; w.failed: some write on w has failed (assumed
+// contract of io.Writer / fmt.Fprintf, see /verif/govc/extern.go).
+
+//@ func Fasta.Write
+//@   props C01 C07
+//@   requires !w.failed
+//@   let n := len(f.Sequence)
+//@   ensures result == nil <==> !w.failed
+//@   ensures result == nil || ioErr(result)
+//@   ensures result == nil ==> len(w.out) == old(len(w.out)) + 2 + len(f.Name) + n + (n+79)/80
+//@   loop 1
+//@     invariant f != nil && !w.failed
+//@     invariant i % 80 == 0 && 0 <= i && i <= (n+79)/80*80
+//@     invariant len(w.out) == old(len(w.out)) + 2 + len(f.Name) + min(i, n) + i/80
+
+//@ func Fasta.MarshalText
+//@   props C01
+//@   ensures result.1 == nil
+//@   ensures len(result.0) == 2 + len(f.Name) + len(f.Sequence) + (len(f.Sequence)+79)/80
